@@ -14,6 +14,7 @@ pub(crate) type Map = BTreeMap<String, String>;
 const PATHS: [&str; 7] = ["a", "a/b", "a/b/c", "a/c", "a-b", "a.b", "a0"];
 const KINDS_FULL: [&str; 5] = ["f1", "f2", "x1", "l1", "k1"];
 const KINDS_SMALL: [&str; 3] = ["f1", "f2", "x1"];
+const KINDS_TINY: [&str; 2] = ["f1", "x1"];
 
 fn compatible(paths: &[&str]) -> bool {
     for a in paths {
@@ -305,22 +306,28 @@ pub fn run(run: &'static Run) {
     let quick = run.quick();
     run.rule(format!(
         "trees = path maps over paths {PATHS:?} (no path a directory-prefix of another) with kinds f1/f2 (blobs, two contents), x1 (executable, \
-         content 1 = same oid as f1), l1 (symlink, same oid as f1), k1 (gitlink); all maps with <=2 entries over all five kinds{}; \
+         content 1 = same oid as f1), l1 (symlink, same oid as f1), k1 (gitlink); {}; \
          every ORDERED pair (A,B) of these maps incl. A==B. Oracle per pair: multiset of raw records of `git diff-tree -r -t --no-renames` \
          (T folded into M) == gix-diff Recorder records, and applying gitoxide's non-tree changes to A's path map gives B's. \
          non-trivial = A != B.",
-        if quick { "" } else { " + all maps with exactly 3 entries over kinds f1/f2/x1" }
+        if quick {
+            "all maps with <=1 entry over all five kinds + all maps with 2 entries over f1/f2/x1"
+        } else {
+            "all maps with <=2 entries over all five kinds + all maps with 3 entries over f1/x1"
+        }
     ));
     run.assume("git 2.39+ `diff-tree --stdin` as oracle; trees built by `git mktree --batch`, objects packed, gitoxide reads them through gix-odb");
     run.assume("order of changes is not compared (git: depth-first path order, gitoxide: breadth-first); tree_with_rewrites is not driven (needs a blob platform), it forwards to the same walk when rewrites are off");
     run.budget_secs(run.pick(35.0, 560.0));
 
     let mut maps = Vec::new();
-    for n in 0..=2 {
-        maps_of_size(n, &KINDS_FULL, &mut maps);
-    }
-    if !quick {
-        maps_of_size(3, &KINDS_SMALL, &mut maps);
+    maps_of_size(0, &KINDS_FULL, &mut maps);
+    maps_of_size(1, &KINDS_FULL, &mut maps);
+    if quick {
+        maps_of_size(2, &KINDS_SMALL, &mut maps);
+    } else {
+        maps_of_size(2, &KINDS_FULL, &mut maps);
+        maps_of_size(3, &KINDS_TINY, &mut maps);
     }
     run.cov("trees", maps.len());
     let fx = Fixture::build(&maps);
